@@ -65,6 +65,8 @@ inductive Event (ν : Type)
   | text (p : Payload)
   | stop (t : Tag)                                                -- `</t>`
   | empty (t : Tag)                                               -- `<t/>` other than cvParam (userParam, …)
+  | lengthAttr (text : String)   -- the text of the `defaultArrayLength` (spectrum) / `arrayLength` + `encodedLength`
+                                 -- (binaryDataArray) attributes of the NEXT start tag; the reader never looks at them
 deriving DecidableEq, Repr
 
 /-- `MzMLError` classes reachable from events -/
@@ -360,6 +362,7 @@ def step (cfg : Config) (s : PState ν) : Event ν → Except Err (PState ν × 
   | .text p => match onText cfg s p with | .error e => .error e | .ok s' => .ok (s', none)
   | .stop t => .ok (onEnd cfg s t)
   | .empty _ => .ok (s, none)
+  | .lengthAttr _ => .ok (s, none)      -- array-length attributes are not read: no allocation is sized from the file
 
 /-- the loop: final locals and the spectra pushed, or the first error -/
 def run (cfg : Config) : PState ν → List (Event ν) → Except Err (PState ν × List (Spectrum ν))
@@ -439,6 +442,7 @@ def Event.inert : Event ν → Bool
   | .start (.other _) _ _ => true
   | .stop (.other _) => true
   | .empty _ => true
+  | .lengthAttr _ => true
   | _ => false
 
 def strip (evs : List (Event ν)) : List (Event ν) := evs.filter (fun e => !e.inert)
